@@ -99,6 +99,29 @@ func main() {
 		return
 	}
 
+	if *prop == "all" {
+		// every property on one load of the tree: one JSON line per property (used by the mutation sweep)
+		w := Load(*root)
+		ids := []string{}
+		for k := range specs {
+			ids = append(ids, k)
+		}
+		sort.Strings(ids)
+		for _, id := range ids {
+			r := NewReport(id)
+			runRules(specs[id], w, r)
+			var bad []Ob
+			for _, o := range r.Obs {
+				if o.Status != OK {
+					bad = append(bad, o)
+				}
+			}
+			b, _ := json.Marshal(map[string]any{"property": id, "obligations": len(r.Obs), "bad": bad})
+			fmt.Println(string(b))
+		}
+		status = 0
+		return
+	}
 	spec := specs[*prop]
 	if spec == nil {
 		ids := []string{}
